@@ -184,4 +184,10 @@ let () = iter_lines (fun line ->
         Printf.printf "%s | SPEC %s\n" l (lm_report ())
       end
     with Failure m -> Printf.printf "BADCASE %s\n" m)
+  | ["M"; kind; bhex; shex] ->
+    (* literal matcher vs glibc on one string: kind n = part-header pattern, e = closing delimiter, h = header line *)
+    let b = bytes_of_hex bhex and str = bytes_of_hex shex in
+    let pat = if kind = "n" then pat_next b else if kind = "e" then pat_end b else pat_hdr in
+    ignore (rx_exec pat str);
+    Printf.printf "M | SPEC %s\n" (lm_report ())
   | _ -> print_endline "BADCASE")
